@@ -65,9 +65,10 @@ RETCODE adfRenameEntry ( struct AdfVolume * const vol,
     }
     
     intl = isINTL(vol->dosType) || isDIRCACHE(vol->dosType);
-    unsigned len = (unsigned) strlen ( newName );
+    unsigned len = min ( (unsigned) strlen ( newName ), (unsigned) MAXNAMELEN );
     adfStrToUpper ( (uint8_t *) name2, (uint8_t*) newName, len, intl );
-    adfStrToUpper ( (uint8_t *) name3, (uint8_t*) oldName, (unsigned) strlen(oldName), intl );
+    adfStrToUpper ( (uint8_t *) name3, (uint8_t*) oldName,
+                    min ( (unsigned) strlen(oldName), (unsigned) MAXNAMELEN ), intl );
     /* newName == oldName ? */
 
     RETCODE rc = adfReadEntryBlock ( vol, pSect, &parent );
@@ -83,7 +84,7 @@ RETCODE adfRenameEntry ( struct AdfVolume * const vol,
     }
 
     /* change name and parent dir */
-    entry.nameLen = (uint8_t) min ( 31u, strlen ( newName ) );
+    entry.nameLen = (uint8_t) len;
     memcpy(entry.name, newName, entry.nameLen);
     entry.parent = nPSect;
     tmpSect = entry.nextSameHash;
@@ -950,7 +951,8 @@ unsigned adfGetHashValue ( const uint8_t * const name,
     unsigned int i;
     uint8_t upper;
 
-    len = hash = (uint32_t) strlen ( (const char * const) name );
+    len = hash = min ( (uint32_t) strlen ( (const char * const) name ),
+                       (uint32_t) MAXNAMELEN );
     for(i=0; i<len; i++) {
         if (intl)
             upper = adfIntlToUpper(name[i]);
